@@ -44,11 +44,12 @@ def bad(node, why: str):
 COQ_KEYWORDS = {"at", "as", "end", "in", "match", "return", "with", "fix", "let", "using", "then", "else", "if", "fun", "forall", "exists",
                 "Type", "Set", "Prop", "where", "struct", "for", "cofix", "IF", "by", "do", "is", "of", "mod", "self_"}
 EXNS = {"KeyError", "IndexError", "AssertionError", "TypeError", "ValueError", "JellyConformanceError", "JellyAssertionError",
-        "JellyNotImplementedError"}
+        "JellyNotImplementedError", "StopIteration", "NotImplementedError"}
 
 
 ENUM_TYPES: dict[str, dict[str, int]] = {}  # filled from the descriptor in rdf_pb2.py by translate_unit
 MESSAGES: dict[str, list[dict]] = {}  # message name -> fields, from the same descriptor
+INT_ENUMS: dict[str, dict[str, int]] = {}  # class X(IntEnum) of the module being translated: member -> value
 FROZEN: set[str] = set()  # classes declared @dataclass(frozen=True): their instances are never changed in place
 TYPE_ALIASES: dict[str, ast.AST] = {}  # `X: TypeAlias = ...` of the module being translated
 
@@ -84,6 +85,10 @@ def coq_type(t) -> str:
         return f"(list {coq_type(t[1])})"
     if isinstance(t, tuple) and t[0] == "pb":
         return "(pbval K)"
+    if t == "any":
+        return "T"
+    if isinstance(t, tuple) and t[0] == "iter":
+        return f"(list {coq_type(t[1])})"
     bad(None, f"no Coq type for {t}")
 
 
@@ -97,7 +102,9 @@ def compat(t, want) -> bool:
         if t[0] in ("seq", "set", "opt"):
             return compat(t[1], want[1])
         if t[0] == "pb":
-            return t[1] == want[1]
+            return set(t[1].split("|")) <= set(want[1].split("|"))
+        if t[0] == "iter":
+            return compat(t[1], want[1])
     return False
 
 
@@ -107,7 +114,7 @@ def is_mutable(t) -> bool:
         return False  # bytes
     if isinstance(t, tuple) and t[0] == "obj" and t[1] in FROZEN:
         return False  # @dataclass(frozen=True)
-    return isinstance(t, tuple) and t[0] in ("pb", "obj", "set", "seq")
+    return isinstance(t, tuple) and t[0] in ("pb", "obj", "set", "seq", "iter")
 
 
 def ann_type(a, classes) -> object:
@@ -120,6 +127,10 @@ def ann_type(a, classes) -> object:
             return a.id
         if a.id == "bytes":
             return ("seq", "int")
+        if a.id == "object":
+            return "any"
+        if a.id in INT_ENUMS:
+            return "int"
         if a.id in classes:
             return ("obj", a.id)
         if a.id in TYPE_ALIASES:
@@ -135,6 +146,8 @@ def ann_type(a, classes) -> object:
         return ann_type(TYPE_ALIASES[a.id], classes)
     if isinstance(a, ast.Subscript) and isinstance(a.value, ast.Name) and a.value.id in ("Sequence", "list"):
         return ("seq", ann_type(a.slice, classes))
+    if isinstance(a, ast.Subscript) and isinstance(a.value, ast.Name) and a.value.id in ("Iterator", "Iterable"):
+        return ("iter", ann_type(a.slice, classes))
     if isinstance(a, ast.Subscript) and isinstance(a.value, ast.Name) and a.value.id == "set":
         return ("set", ann_type(a.slice, classes))
     if isinstance(a, ast.Subscript) and isinstance(a.value, ast.Name) and a.value.id == "tuple" and isinstance(a.slice, ast.Tuple) and a.slice.elts:
@@ -145,6 +158,8 @@ def ann_type(a, classes) -> object:
             return ("opt", l)
         if l == "none":
             return ("opt", r)
+        if isinstance(l, tuple) and isinstance(r, tuple) and l[0] == r[0] == "pb":
+            return ("pb", l[1] + "|" + r[1])
         bad(a, "union annotation")
     if isinstance(a, ast.Subscript) and isinstance(a.value, ast.Name) and a.value.id == "deque":
         return ("seq", ann_type(a.slice, classes))
@@ -193,6 +208,8 @@ class Translator:
         self.int_sets: dict[str, list] = {}
         self.str_consts: dict[str, str] = {}  # module-level string constants of pyjelly/options.py
         self.method_selection: dict[str, list[str]] = {}  # class -> the methods that belong to the unit
+        self.virtual_methods: dict[str, list[str]] = {}  # class -> methods that subclasses override (parameters of the translation)
+        self.uses_any = False  # `object`-typed values: an abstract type T with an equality
         self.out: list[str] = []
         self.fresh = 0
 
@@ -208,6 +225,7 @@ class Translator:
         info = ClassInfo(node.name)
         self.classes[node.name] = info
         only = self.method_selection.get(node.name)
+        virtual = self.virtual_methods.get(node.name, [])
         methods = [n for n in node.body if isinstance(n, ast.FunctionDef) and n.name != "__repr__" and (only is None or n.name in only)]
         if only is not None and set(only) - {m.name for m in methods}:
             bad(node, f"{node.name} no longer defines {sorted(set(only) - {m.name for m in methods})}")
@@ -226,6 +244,9 @@ class Translator:
             params = [(p.arg, ann_type(p.annotation, self.classes)) for p in (a.args[1:] + a.kwonlyargs)]
             ret = ann_type(m.returns, self.classes) if m.name != "__init__" else ("obj", node.name)
             info.methods[m.name] = (params, ret)
+            if m.name in virtual:
+                info.inout.add(m.name)
+                continue
             if m.name != "__init__" and any(is_mutable(t) for _, t in params):
                 # in/out parameters.  A helper that leaves self alone is translated without self; one that uses self
                 # may only take messages in/out (a message cannot be one of self's tables: no aliasing)
@@ -255,6 +276,8 @@ class Translator:
         order = []
 
         def calls(m):
+            if m.name in virtual:
+                return set()
             return {c.func.attr for c in ast.walk(m) if isinstance(c, ast.Call) and isinstance(c.func, ast.Attribute)
                     and isinstance(c.func.value, ast.Name) and c.func.value.id == "self"} - {m.name}
 
@@ -268,6 +291,13 @@ class Translator:
         for m in order:
             params, ret = info.methods[m.name]
             env = {p: t for p, t in params}
+            if m.name in virtual:
+                # the base class only raises; subclasses (the integrations' dispatchers) override it.  The translation
+                # is parametric in what the override does: a section variable of the method's type.
+                muts = [(p, t) for p, t in params if is_mutable(t)]
+                ty = " -> ".join([coq_type(t) for _, t in params] + [info.name, f"outcome {coq_type(ret)} * {info.name}" + "".join(f" * {coq_type(t)}" for _, t in muts)])
+                self.out.append(f"Context ({info.name}_{m.name} : {ty}).")
+                continue
             if m.name in info.static:
                 emit_function(self, f"{info.name}_{m.name}", m.body, params, ret)
                 continue
@@ -612,6 +642,20 @@ class Mode:
                         t = at
                     return self.write_field(tgt.attr, v, t, lambda: self.stmts(rest, env))
                 return self.expr(val, env, k_fld)
+            if isinstance(tgt, ast.Subscript) and isinstance(tgt.value, ast.Name) and isinstance(env.get(tgt.value.id), tuple) \
+                    and env[tgt.value.id][0] == "seq":
+                lt = env[tgt.value.id]
+                nm = mangle(tgt.value.id)
+
+                def k_i(iv, it):
+                    def k_v(v, t):
+                        if it != "int":
+                            bad(s, "sequence index type")
+                        d, e_ = self.tr.gensym("d"), self.tr.gensym("e")
+                        return (f"match seq_set {nm} {iv} {self.coerce(v, t, lt[1], s)} with\n| Exn {e_} => {self.on_exn(e_)}\n"
+                                f"| Val {d} =>\nlet {nm} := {d} in\n{self.stmts(rest, env)}\nend")
+                    return self.expr(val, env, k_v)
+                return self.expr(tgt.slice, env, k_i)
             if (isinstance(tgt, ast.Subscript) and isinstance(tgt.value, ast.Attribute) and isinstance(tgt.value.value, ast.Name)
                     and tgt.value.value.id == "self"):
                 f = tgt.value.attr
@@ -747,6 +791,10 @@ class Mode:
             if e.id in tr.consts:
                 return k(f"({tr.consts[e.id]})", "int")
             bad(e, "unknown name")
+        if isinstance(e, ast.Attribute) and isinstance(e.value, ast.Name) and e.value.id in INT_ENUMS:
+            if e.attr not in INT_ENUMS[e.value.id]:
+                bad(e, "unknown enum member")
+            return k(f"({INT_ENUMS[e.value.id][e.attr]})", "int")
         if isinstance(e, ast.Attribute) and isinstance(e.value, ast.Name) and e.value.id == "options" and e.attr in tr.str_consts:
             return k("(str_lit [" + "; ".join(str(ord(c)) for c in tr.str_consts[e.attr]) + "])", "str")
         if isinstance(e, ast.Attribute) and isinstance(e.value, ast.Name) and e.value.id == "jelly":
@@ -854,6 +902,10 @@ class Mode:
                             return k(f"({a} {ops[type(op)]} {b})", "bool")
                     if (at, bt) == ("str", "str") and isinstance(op, (ast.Eq, ast.NotEq)):
                         c = f"(str_eqb {a} {b})"
+                        return k(c if isinstance(op, ast.Eq) else f"(negb {c})", "bool")
+                    if at == ("opt", "any") and bt == "any" and isinstance(op, (ast.Eq, ast.NotEq)):
+                        tr.uses_any = True
+                        c = f"(match {a} with Some x_ => any_eqb x_ {b} | None => false end)"
                         return k(c if isinstance(op, ast.Eq) else f"(negb {c})", "bool")
                     if (at, bt) == ("bool", "bool") and isinstance(op, (ast.Eq, ast.NotEq)):
                         c = f"(Bool.eqb {a} {b})"
@@ -1028,6 +1080,14 @@ class Mode:
             return self.expr(e.args[0], env, lambda it, itt: self.expr(e.keywords[0].value, env, lambda n, nt: (
                 f"match deque_make {it} {n} with\n| Exn {ex} => {self.on_exn(ex)}\n| Val {x} =>\n{k(x, itt)}\nend"
                 if nt == "int" and isinstance(itt, tuple) and itt[0] == "seq" else bad(e, "deque arguments"))))
+        # iter(x): an iterable we model as the list of its items is its own iterator
+        if isinstance(f, ast.Name) and f.id == "iter" and len(e.args) == 1 and not e.keywords:
+            return self.expr(e.args[0], env, lambda v, t: k(v, t) if isinstance(t, tuple) and t[0] == "iter" else bad(e, "iter of this type"))
+        # next(it) on a local iterator: the head, or StopIteration
+        if isinstance(f, ast.Name) and f.id == "next" and len(e.args) == 1 and not e.keywords and isinstance(e.args[0], ast.Name) \
+                and isinstance(env.get(e.args[0].id), tuple) and env[e.args[0].id][0] == "iter":
+            it = mangle(e.args[0].id)
+            return (f"match {it} with\n| [] => {self.on_exn('StopIteration')}\n| {x} :: {it} =>\n{k(x, env[e.args[0].id][1])}\nend")
         if isinstance(f, ast.Name) and f.id == "set" and not e.args and not e.keywords:
             return k("[]", ("set", "?"))
         if not isinstance(f, ast.Attribute):
@@ -1260,8 +1320,8 @@ UNITS = {
                 "items": ["TRIPLES_ONLY_LOGICAL_TYPES", "validate_type_compatibility", "LookupPreset", "StreamTypes", "StreamParameters"]},
     "encode": {"src": "pyjelly/serialize/encode.py", "ctx": True, "uses": ["lookup_enc", "options"], "gen": "EncodeGen",
                "items": ["split_iri", ("TermEncoder", ["__init__", "start_statement", "_entry_index", "encode_iri_indices", "encode_iri",
-                                                       "encode_default_graph", "encode_literal"]),
-                         "encode_namespace_declaration", "encode_options"]},
+                                                       "encode_default_graph", "encode_literal"], ["encode_spo", "encode_graph"]),
+                         "encode_namespace_declaration", "encode_options", "encode_spo", "encode_triple", "encode_quad"]},
 }
 
 
@@ -1329,7 +1389,13 @@ def run_unit(repo: Path, unit: str) -> tuple["Translator", set[str], list[str]]:
     names = None if items is None else [i if isinstance(i, str) else i[0] for i in items]
     for i in items or []:
         if not isinstance(i, str):
-            tr.method_selection[i[0]] = i[1]
+            tr.method_selection[i[0]] = i[1] + (i[2] if len(i) > 2 else [])
+            tr.virtual_methods[i[0]] = i[2] if len(i) > 2 else []
+    INT_ENUMS.clear()
+    for n in ast.parse(f.read_text()).body:
+        if isinstance(n, ast.ClassDef) and [ast.unparse(b) for b in n.bases] == ["IntEnum"]:
+            INT_ENUMS[n.name] = {st.targets[0].id: st.value.value for st in n.body
+                                 if isinstance(st, ast.Assign) and isinstance(st.targets[0], ast.Name) and isinstance(st.value, ast.Constant)}
     mod = ast.parse(f.read_text())
     chosen = []
     for n in mod.body:
@@ -1399,9 +1465,10 @@ def translate_unit(repo: Path, unit: str) -> str:
     head += ["Local Open Scope Z_scope.", "Local Open Scope bool_scope."]
     if not u["ctx"]:
         return "\n".join(head + tr.out) + "\n"
+    ctx_any = ["Context {T : Type} (any_eqb : T -> T -> bool)."] if tr.uses_any or any(re.search(r"\bT\b", o) for o in tr.out) else []
     tail = ["End Gen."] + [f"Arguments {n} {{S}}." for n in implicit]
     tail.append("(* definitions that take the string structure S as their first argument: " + " ".join(sorted(uses - set(implicit))) + " *)")
-    return "\n".join(head + ["Section Gen.", CTX_STR] + tr.abbrev + tr.out + tail) + "\n"
+    return "\n".join(head + ["Section Gen.", CTX_STR] + ctx_any + tr.abbrev + tr.out + tail) + "\n"
 
 
 def main() -> int:
